@@ -30,7 +30,8 @@ CHECKS = {
               "seam position / hazard; TLC explores ALL interleavings of each run's recorded per-worker writes and judges every "
               "terminal state with the same property layer plus projections of the real output (sync column bit-exact = sample "
               "counter, file length, rms rows, saturation entries, data within 1 LSB of batch-wise in-memory destriping); output "
-              "bytes are compared across worker counts."),
+              "bytes are compared across worker counts. Half of the real runs start with longer leftovers of an earlier run under "
+              "every output name (a non-append call starts from scratch)."),
         design_ref="DESIGN.md §4 C06",
         note=("Trusted: TLC; the hooks in voltage.my_function (values read from live objects); /verif/vendor/pyfftw stand-in "
               "(scipy.fft) replacing the absent pyfftw; batch function deterministic. Exhaustive interleavings only inside the "
@@ -43,7 +44,8 @@ CHECKS = {
               "operations over an abstract directory, for every pre-existing directory (stale pairs, leftovers, scratch copies), "
               "keep_original, and a failure after every step: no final-named .cbin / scratch .bin is ever partial, a source "
               "disappears only when its replacement is complete, a failed call leaves the source untouched, completed calls "
-              "deliver, every entry path resolves to the recording. The real calls are then executed on real files with every "
+              "deliver, a re-compression failing at a chunk leaves an already published compressed pair complete, every entry path "
+              "resolves to the recording. The real calls are then executed on real files with every "
               "file operation of spikeglx/mtscomp instrumented from the harness and a fault injected at each operation in turn; "
               "each observed directory sequence is validated as a trace (every step must be the spec's action for that "
               "operation; property layer evaluated on every observed directory). spec/sys/CbinSlice.tla enumerates every slice "
@@ -87,8 +89,9 @@ CHECKS = {
     ),
     "C04": dict(
         category="model_checking",
-        text=("TLC checks spec/sys/NP2Convert.tla: histories of up to 3 process() runs (fresh converter per run) x the 16 option "
-              "vectors {overwrite, post_check, compress, delete_original} x probe kind {NP2.4, NP2.1, NP1, already split} x original "
+        text=("TLC checks spec/sys/NP2Convert.tla: histories of up to 3 process() runs (a fresh converter per run, or the same object "
+              "called again) x the option vectors {overwrite, post_check, compress, delete_original, partial conversion via "
+              "init_params(nsamples)} x probe kind {NP2.4, NP2.1, NP1, already split} x original "
               "form {bin, cbin} with an interruption enabled after every step (prepare, each window, close, metadata, verification "
               "before/after completion, each per-shank unlink/compress/unlink, delete): Recoverable in every state, the original "
               "disappears only after verification (NP2.4) / in-place compression (NP2.1), status 0 means nothing changed, a "
@@ -127,7 +130,10 @@ CHECKS = {
               "exhaustively over frame sizes {2,4,10,770} x <= 5 frames x announced counts; every exported case, 385-channel files "
               "with every trailing byte count 0..769, sparse files up to 1e9 frames, fractional sampling rates and .cbin/.ch "
               "mismatches are opened by the real code (spec -> code comparison with the exported expectation) and validated as "
-              "traces by spec/trace/ReaderOpenTrace.tla, including reads at and past the end."),
+              "traces by spec/trace/ReaderOpenTrace.tla, including reads at and past the end. Deferred opening is part of the model "
+              "and of the real runs: Reader(open=False) constructed at one length of the file, the file grows / is truncated, then "
+              "open(). The arithmetic (byte vs frame form of the size test, exposed = floor, no raise) is also discharged for "
+              "unbounded frame sizes and lengths by Apalache (spec/apalache/ReaderOpenInd.tla)."),
         design_ref="DESIGN.md §4 C11",
         note=("Trusted: TLC; harness/c11.py; rl*fs projected to a frame count (1e-6 rel.); values compared as float32(raw)*s2v. A "
               ".cbin physically truncated inside a chunk and growth of the file after an OnlineReader was constructed are outside."),
